@@ -104,11 +104,11 @@ def tobj_of(cx: Ctx, depth: int) -> str:
     if r < 0.45:
         n = rng.choice([0, 1, 2, 3])
         res = "O TagList [ data L [ " + "".join(tagified(cx, depth) + " " for _ in range(n)) + "] ]"
-    elif r < 0.85:
+    elif r < 0.88:
         res = tagified(cx, depth)
-    elif r < 0.90:
+    elif r < 0.93:
         res = node(cx, depth, tobj=True)              # not tagified: allowed, the loop does not look into it
-    elif r < 0.95:
+    elif r < 0.985:
         res = rng.choice(["N", "I 3", "L [ ]", "U [ " + S("a") + " ]"])      # `cp[i] = <that>`
     else:
         # a TagList with items `_tagchilds_to_tagnodes` would rewrite (outside the primitive's domain: no verdict)
